@@ -222,6 +222,15 @@ DOC_EXAMPLE = '''.data
 '''
 
 
+EARLIER_PROGRAM = """.data
+    old_a: .word 0x11111111, 0x22222222, 0x33333333, 0x44444444, 0x55555555, 0x66666666
+    old_s: .string "previous program's text"
+.text
+    lw x5, old_a[0]
+    lw x6, old_a[3]
+"""
+
+
 def run_c05(tier, seed):
     rnd = random.Random(seed + 5)
     evals, seen, viol, samples = 0, set(), [], []
@@ -262,7 +271,19 @@ def run_c05(tier, seed):
                 ea0 = base0 + size0 * (idx or 0)
                 if ea0 % 4 + {"b": 1, "h": 2, "w": 4}[mn[1]] > 4 or ea0 % 4 + {"sb": 1, "sh": 2, "sw": 4}[smn] > 4:
                     kw = {}
-            s = load(text, **kw)
+            used = bool(kw) and evals % 2 == 0
+            if used:
+                # the same program assembled into a simulation that held another program before (never started; its data
+                # segment was looked at through the memory system, which fills the cache): what the data segment holds
+                # after load_program does not depend on what the simulation held before
+                s = RiscvSimulation(**kw)
+                s.load_program(EARLIER_PROGRAM)
+                a0 = s.state.memory.get_address_range().start
+                for a_ in range(a0, a0 + 48, 4):
+                    s.state.memory.read_word(a_)
+                s.load_program(text)
+            else:
+                s = load(text, **kw)
             bad = None
             if data_bytes(s) != {a: b for a, b in mem.items()} and {a: b for a, b in data_bytes(s).items() if b} != {a: b for a, b in mem.items() if b}:
                 bad = "data memory differs from the documented layout"
@@ -294,7 +315,7 @@ def run_c05(tier, seed):
             bad = "%s: %s" % (type(e).__name__, str(e)[:100] or repr(e)[:100])
         if bad and kw:
             c_ = kw["data_cache"]
-            bad += "   [with a data cache: %d index bits, %d block bits, %d ways, %s, %s; %s]" % (c_.num_index_bits, c_.num_block_bits, c_.associativity, c_.cache_type, c_.replacement_strategy, kw["mode"])
+            bad += "   [with a data cache: %d index bits, %d block bits, %d ways, %s, %s; %s%s]" % (c_.num_index_bits, c_.num_block_bits, c_.associativity, c_.cache_type, c_.replacement_strategy, kw["mode"], "; loaded into a simulation that held another program before" if used else "")
         if bad and len(viol) < 5:
             base, size = table[d.name]
             ea = base + size * (idx or 0)
@@ -302,7 +323,7 @@ def run_c05(tier, seed):
             raw = sum(mem.get(ea + i, 0) << (8 * i) for i in range(n))
             sn = {"sb": 1, "sh": 2, "sw": 4}[smn]
             viol.append({"key": "C05:" + bad[:70], "what": bad, "text": text, "sub": "case",
-                         "cache": [c_.num_index_bits, c_.num_block_bits, c_.associativity, c_.cache_type, c_.replacement_strategy] if kw else None, "mode": kw.get("mode"),
+                         "cache": [c_.num_index_bits, c_.num_block_bits, c_.associativity, c_.cache_type, c_.replacement_strategy] if kw else None, "mode": kw.get("mode"), "used": bool(kw) and used,
                          "expected_data": {str(a): b for a, b in mem.items()},
                          "expected_registers": {"5": ea, "6": raw if mn in ("lbu", "lhu", "lw") else asm.sext(raw, 8 * n) % 2 ** 32, "7": c % 2 ** 32, "8": (c % 2 ** 32) % 2 ** (8 * sn)}})
         elif not bad and len(samples) < 2:
@@ -568,7 +589,15 @@ def replay(j):
             c = j["cache"]
             kw = {"data_cache": CacheOptions(True, c[0], c[1], c[2], c[3], c[4], 0), "mode": j["mode"]}
         try:
-            s = load(text, **kw)
+            if j.get("used"):
+                s = RiscvSimulation(**kw)
+                s.load_program(EARLIER_PROGRAM)
+                a0 = s.state.memory.get_address_range().start
+                for a_ in range(a0, a0 + 48, 4):
+                    s.state.memory.read_word(a_)
+                s.load_program(text)
+            else:
+                s = load(text, **kw)
             got = {str(a): b for a, b in data_bytes(s).items() if b}
             ok = got == {a: b for a, b in j["expected_data"].items() if b}
             s.run()
